@@ -403,3 +403,227 @@ pub fn run_meta_receiver(name: &str, entry: &MetaEntry, meta: &syn::Meta) -> Opt
         [S1, S2, S3, S4, S5, S6, S7, S8, S9, S10, S11, N1, N2, Rec, F1, F2, F3, F4, U1, NT1, NT2, W1, E1, E2, E3, EH, WR, MP]
     )
 }
+
+// ------------------------------------------------------------------------------------------------
+// element-level receivers
+
+use darling::{ast, FromAttributes, FromDeriveInput, FromField, FromTypeParam, FromVariant};
+
+fn ident_val(i: &syn::Ident) -> V {
+    V::S(i.to_string())
+}
+
+#[derive(FromField)]
+#[darling(attributes(a))]
+pub struct FR1 {
+    ident: Option<syn::Ident>,
+    ty: syn::Type,
+    vis: syn::Visibility,
+    p: Option<PM<3101>>,
+    q: PM<3102>,
+}
+impl Observe for FR1 {
+    fn observe(&self) -> V {
+        let _ = (&self.ty, &self.vis);
+        V::Struct(
+            "FR1".into(),
+            vec![
+                ("ident".into(), self.ident.as_ref().map(ident_val).unwrap_or(V::None)),
+                ("p".into(), self.p.observe()),
+                ("q".into(), self.q.observe()),
+            ],
+        )
+    }
+}
+
+#[derive(FromField)]
+#[darling(attributes(a, b), forward_attrs)]
+pub struct FR2 {
+    attrs: Vec<syn::Attribute>,
+    #[darling(flatten)]
+    rest: S1,
+}
+observe_struct!(FR2 { attrs, rest });
+
+#[derive(FromField)]
+#[darling(attributes(a), forward_attrs(doc, keep))]
+pub struct FR3 {
+    #[darling(with = aw::<3300>)]
+    attrs: AttrProbe,
+    p: Option<PM<3301>>,
+}
+observe_struct!(FR3 { attrs, p });
+
+#[derive(FromVariant)]
+#[darling(attributes(a))]
+pub struct VR1 {
+    ident: syn::Ident,
+    discriminant: Option<syn::Expr>,
+    fields: ast::Fields<FR1>,
+    p: Option<PM<3401>>,
+}
+impl Observe for VR1 {
+    fn observe(&self) -> V {
+        let _ = &self.discriminant;
+        V::Struct("VR1".into(), vec![("ident".into(), ident_val(&self.ident)), ("fields".into(), self.fields.observe()), ("p".into(), self.p.observe())])
+    }
+}
+
+#[derive(FromVariant)]
+#[darling(attributes(a), supports(unit, newtype))]
+pub struct VR2 {
+    ident: syn::Ident,
+    fields: ast::Fields<FP<3501>>,
+    q: PM<3502>,
+}
+impl Observe for VR2 {
+    fn observe(&self) -> V {
+        V::Struct("VR2".into(), vec![("ident".into(), ident_val(&self.ident)), ("fields".into(), self.fields.observe()), ("q".into(), self.q.observe())])
+    }
+}
+
+#[derive(FromTypeParam)]
+#[darling(attributes(a))]
+pub struct TR1 {
+    ident: syn::Ident,
+    bounds: Vec<syn::TypeParamBound>,
+    default: Option<syn::Type>,
+    p: Option<PM<3601>>,
+}
+impl Observe for TR1 {
+    fn observe(&self) -> V {
+        let _ = (&self.bounds, &self.default);
+        V::Struct("TR1".into(), vec![("ident".into(), ident_val(&self.ident)), ("p".into(), self.p.observe())])
+    }
+}
+
+#[derive(FromDeriveInput)]
+#[darling(attributes(a, b))]
+pub struct DI1 {
+    ident: syn::Ident,
+    vis: syn::Visibility,
+    generics: ast::Generics<ast::GenericParam<TR1>>,
+    data: ast::Data<VR1, FR1>,
+    s: S1,
+    p: Option<PM<3701>>,
+}
+impl Observe for DI1 {
+    fn observe(&self) -> V {
+        let _ = &self.vis;
+        V::Struct(
+            "DI1".into(),
+            vec![
+                ("ident".into(), ident_val(&self.ident)),
+                ("generics".into(), self.generics.observe()),
+                ("data".into(), self.data.observe()),
+                ("s".into(), self.s.observe()),
+                ("p".into(), self.p.observe()),
+            ],
+        )
+    }
+}
+
+#[derive(FromDeriveInput)]
+#[darling(attributes(a), supports(struct_named, enum_unit, enum_newtype), forward_attrs)]
+pub struct DI2 {
+    attrs: Vec<syn::Attribute>,
+    data: ast::Data<VR2, FR2>,
+    q: PM<3801>,
+}
+observe_struct!(DI2 { attrs, data, q });
+
+#[derive(FromDeriveInput)]
+#[darling(attributes(a), supports(any))]
+pub struct DI3 {
+    #[darling(with = dw::<3900>)]
+    data: DataProbe,
+    generics: GP<3901>,
+    p: Option<PM<3902>>,
+}
+observe_struct!(DI3 { data, generics, p });
+
+#[derive(FromDeriveInput)]
+#[darling(attributes(a), from_ident)]
+pub struct DI4 {
+    ident: syn::Ident,
+    p: PM<4001>,
+    o: Option<PM<4002>>,
+}
+impl From<syn::Ident> for DI4 {
+    fn from(ident: syn::Ident) -> Self {
+        from_ident_seam(4000);
+        DI4 { ident, p: PM(Tok::FromIdent("p".into())), o: None }
+    }
+}
+impl Observe for DI4 {
+    fn observe(&self) -> V {
+        V::Struct("DI4".into(), vec![("ident".into(), ident_val(&self.ident)), ("p".into(), self.p.observe()), ("o".into(), self.o.observe())])
+    }
+}
+
+#[derive(FromDeriveInput)]
+pub struct DI5(DI1);
+impl Observe for DI5 {
+    fn observe(&self) -> V {
+        self.0.observe()
+    }
+}
+
+#[derive(FromDeriveInput)]
+#[darling(attributes(a), supports(struct_tuple))]
+pub struct DI6 {
+    data: ast::Data<(), FP<4201>>,
+    p: Option<PM<4202>>,
+}
+observe_struct!(DI6 { data, p });
+
+#[derive(FromAttributes)]
+#[darling(attributes(a, b))]
+pub struct AT1 {
+    p: PM<4301>,
+    #[darling(multiple)]
+    m: Vec<PM<4302>>,
+    #[darling(flatten)]
+    rest: S9,
+}
+observe_struct!(AT1 { p, m, rest });
+
+#[derive(FromAttributes)]
+#[darling(attributes(a), forward_attrs(doc))]
+pub struct AT2 {
+    attrs: Vec<syn::Attribute>,
+    e: Option<E1>,
+}
+observe_struct!(AT2 { attrs, e });
+
+pub enum ElemInput<'a> {
+    DeriveInput(&'a syn::DeriveInput),
+    Field(&'a syn::Field),
+    Variant(&'a syn::Variant),
+    TypeParam(&'a syn::TypeParam),
+    Attributes(&'a [syn::Attribute]),
+}
+
+/// Run the element-level entry point of the named receiver. `None` = unknown receiver / wrong kind.
+pub fn run_elem_receiver(name: &str, input: &ElemInput) -> Option<Result<V, darling::Error>> {
+    fn ob<T: Observe>(r: darling::Result<T>) -> Result<V, darling::Error> {
+        r.map(|v| v.observe())
+    }
+    Some(match (name, input) {
+        ("FR1", ElemInput::Field(f)) => ob(FR1::from_field(f)),
+        ("FR2", ElemInput::Field(f)) => ob(FR2::from_field(f)),
+        ("FR3", ElemInput::Field(f)) => ob(FR3::from_field(f)),
+        ("VR1", ElemInput::Variant(v)) => ob(VR1::from_variant(v)),
+        ("VR2", ElemInput::Variant(v)) => ob(VR2::from_variant(v)),
+        ("TR1", ElemInput::TypeParam(t)) => ob(TR1::from_type_param(t)),
+        ("DI1", ElemInput::DeriveInput(d)) => ob(DI1::from_derive_input(d)),
+        ("DI2", ElemInput::DeriveInput(d)) => ob(DI2::from_derive_input(d)),
+        ("DI3", ElemInput::DeriveInput(d)) => ob(DI3::from_derive_input(d)),
+        ("DI4", ElemInput::DeriveInput(d)) => ob(DI4::from_derive_input(d)),
+        ("DI5", ElemInput::DeriveInput(d)) => ob(DI5::from_derive_input(d)),
+        ("DI6", ElemInput::DeriveInput(d)) => ob(DI6::from_derive_input(d)),
+        ("AT1", ElemInput::Attributes(a)) => ob(AT1::from_attributes(a)),
+        ("AT2", ElemInput::Attributes(a)) => ob(AT2::from_attributes(a)),
+        _ => return None,
+    })
+}
